@@ -278,6 +278,76 @@ def finals():
     return out
 
 
+def last_triggers():
+    """`trigger(..., is_last=True)` x the phase of the render task when it arrives (idle; rendering = the previous
+    change's render is suspended; woken = a trigger is pending and the task has not run yet; queued = earlier
+    notifications are still in the message layer; during the first render; during the final render itself) x
+    rendered (None) / explicit (a 2.05 message handed to trigger) x CON / NON; then further changes, which must
+    not produce anything."""
+    out = []
+    for mt in ("CON", "NON"):
+        for code, kind in ((None, "rendered"), (69, "explicit")):
+            last = lambda t, sv=0: ["T", t, sv, code, 1]
+            tail = [["U", T(4.0), None], ["T", T(5.0), 0, None, 0]]
+            tag = f"last:{mt}:{kind}:"
+            out.append(script(tag + "idle", [reg(0.01, mt=mt), ["U", T(1.0), None], last(T(2.0))] + tail, acks(0)))
+            # the render of the previous change is suspended when the last-marked change arrives
+            for prev in ("update", "trigger"):
+                pev = ["U", T(1.4), None] if prev == "update" else ["T", T(1.4), 0, None, 0]
+                for ren in ("imm", "susp"):
+                    renders = [IMM, IMM, "s"] + (["s"] if ren == "susp" else [])
+                    ev = [reg(0.01, mt=mt), ["U", T(1.0), None], pev, last(T(1.5)), ["L", T(1.6), 0, 69, 0]]
+                    if ren == "susp":
+                        ev.append(["L", T(1.8), 0, 69, 0])
+                    out.append(script(tag + f"rendering:{prev}:final-render-{ren}", ev + tail, acks(0), renders))
+            # ... and the suspended render fails / is unsuccessful: that ends the registration by itself
+            for bad, exc in ((132, 1), (129, 0)):
+                out.append(script(tag + f"rendering:fails:{bad}",
+                                  [reg(0.01, mt=mt), ["U", T(1.0), None], ["U", T(1.4), None], last(T(1.5)),
+                                   ["L", T(1.6), 0, bad, exc]] + tail, acks(0), [IMM, IMM, "s"]))
+            # two last-marked changes / a last-marked and a plain one while the render is suspended
+            out.append(script(tag + "rendering:last-then-plain",
+                              [reg(0.01, mt=mt), ["U", T(1.0), None], ["U", T(1.4), None], last(T(1.5)),
+                               ["U", T(1.55), None], ["L", T(1.6), 0, 69, 0]] + tail, acks(0), [IMM, IMM, "s"]))
+            out.append(script(tag + "rendering:plain-then-last",
+                              [reg(0.01, mt=mt), ["U", T(1.0), None], ["U", T(1.4), None], ["U", T(1.45), None],
+                               last(T(1.5)), ["L", T(1.6), 0, 69, 0]] + tail, acks(0), [IMM, IMM, "s"]))
+            # a change while the FINAL render is suspended (the resource goes on after it said "last")
+            for code2 in (None, 69):
+                out.append(script(tag + f"during-final-render:{'rendered' if code2 is None else 'explicit'}",
+                                  [reg(0.01, mt=mt), ["U", T(1.0), None], last(T(1.5)), ["T", T(1.55), 0, code2, 0],
+                                   ["L", T(1.6), 0, 69, 0], ["L", T(1.8), 0, 69, 0]] + tail, acks(0),
+                                  [IMM, IMM, "s", "s"]))
+            # woken: another trigger is pending and the task has not run yet
+            out.append(script(tag + "woken:update-then-last",
+                              [reg(0.01, mt=mt), ["U", T(1.0), None], ["&", T(1.5), [["U", 0, None], last(0)]]] + tail,
+                              acks(0)))
+            out.append(script(tag + "woken:last-then-update",
+                              [reg(0.01, mt=mt), ["U", T(1.0), None], ["&", T(1.5), [last(0), ["U", 0, None]]]] + tail,
+                              acks(0)))
+            out.append(script(tag + "woken:last-then-explicit",
+                              [reg(0.01, mt=mt), ["U", T(1.0), None], ["&", T(1.5), [last(0), ["U", 0, 69]]]] + tail,
+                              acks(0)))
+            # queued: earlier notifications are still in the message layer (unacknowledged / in the backlog)
+            for ack in ("acked-late", "silent"):
+                rules = [] if ack == "silent" else acks(0, after=0.9)
+                out.append(script(tag + f"queued:{ack}",
+                                  [reg(0.01, mt=mt), ["U", T(1.0), None], ["U", T(1.2), None], last(T(1.5))] + tail,
+                                  rules))
+            # during the first render, and right after the first response
+            out.append(script(tag + "first-render",
+                              [reg(0.01, mt=mt), last(T(0.1)), ["L", T(0.3), 0, 69, 0]] + tail, acks(0), ["s"]))
+            out.append(script(tag + "first-render:final-render-susp",
+                              [reg(0.01, mt=mt), last(T(0.1)), ["L", T(0.3), 0, 69, 0], ["U", T(0.4), None],
+                               ["L", T(0.5), 0, 69, 0]] + tail, acks(0), ["s", "s"]))
+            # two observers: only one is told that this is the last change
+            out.append(script(tag + "two-observers",
+                              [reg(0.01, mt=mt), reg(0.02, remote=1, mid=200, tok="bb", mt=mt), ["U", T(1.0), None],
+                               ["U", T(1.4), None], last(T(1.5), 1), ["L", T(1.6), 1, 69, 0], ["L", T(1.7), 0, 69, 0]]
+                              + [["U", T(4.0), None]], acks(0) + acks(1), [IMM] * 4 + ["s", "s"]))
+    return out
+
+
 def misc():
     out = []
     # Reset of a non-confirmable notification (RFC 7641 4.5 expects the observer to be removed)
@@ -309,7 +379,7 @@ def misc():
 
 def boundary_table():
     return (first_response() + trigger_offsets() + bursts() + reactions() + kth_copy() +
-            errors_and_shutdown() + several_observers() + finals() + misc() + slow_add())
+            errors_and_shutdown() + several_observers() + finals() + last_triggers() + misc() + slow_add())
 
 
 def random_script(rng, i):
